@@ -197,6 +197,420 @@ Proof.
     apply In_trie_root in Hi. apply walk_In in Hi. rewrite E in Hi. destruct Hi.
 Qed.
 
+(** * Expand search: the loops *)
+
+Definition children (a : list byte) (nd : qnode) : list qnode :=
+  flat_map (fun c => let n := step c (q_pos nd) in
+                     if is_nil n then [] else [mkQ (q_key nd ++ [c]) n]) a.
+
+Definition emits (a : list byte) (nd : qnode) : list (nat * nat) :=
+  flat_map (fun c => match leaf (step c (q_pos nd)) with
+                     | Some v => [(v, length (q_key nd ++ [c]))]
+                     | None => []
+                     end) a.
+
+Lemma limit_hit_0 c : limit_hit 0 c = false.
+Proof. reflexivity. Qed.
+
+Lemma traverse_1 c nd :
+  traverse [c] nd =
+  let n := step c nd in
+  if is_nil n then NoPath else match leaf n with Some v => Value v n | None => NoValue n end.
+Proof. reflexivity. Qed.
+
+(** without a limit the scan pushes every child and records every child with a value *)
+Lemma scan_unlimited cs nd count :
+  scan 0 cs nd count = (children cs nd, emits cs nd, count + length (emits cs nd), false).
+Proof.
+  revert count. induction cs as [|c cs IH]; intros count; cbn [scan children emits flat_map].
+  - cbn. now rewrite Nat.add_0_r.
+  - rewrite traverse_1. cbn zeta. fold (children cs nd). fold (emits cs nd).
+    destruct (step c (q_pos nd)) as [|e n] eqn:E; cbn [is_nil].
+    + cbn [leaf app]. apply IH.
+    + destruct (leaf (e :: n)) as [v|] eqn:El.
+      * rewrite limit_hit_0, IH. cbn [app length]. f_equal. f_equal. lia.
+      * rewrite IH. reflexivity.
+Qed.
+
+(** with a limit [L] not yet reached: the same until the count reaches [L] *)
+Lemma scan_limited L cs nd count :
+  count < L ->
+  if count + length (emits cs nd) <? L
+  then scan L cs nd count = (children cs nd, emits cs nd, count + length (emits cs nd), false)
+  else exists pushed, scan L cs nd count = (pushed, firstn (L - count) (emits cs nd), L, true).
+Proof.
+  revert count. induction cs as [|c cs IH]; intros count Hc; cbn [scan children emits flat_map].
+  - cbn [length]. rewrite Nat.add_0_r. apply Nat.ltb_lt in Hc. rewrite Hc. reflexivity.
+  - rewrite traverse_1. cbn zeta. fold (children cs nd). fold (emits cs nd).
+    destruct (step c (q_pos nd)) as [|e n] eqn:E; cbn [is_nil].
+    + cbn [leaf app]. apply IH. exact Hc.
+    + destruct (leaf (e :: n)) as [v|] eqn:El; cbn [app length].
+      * unfold limit_hit. destruct L as [|L]; [lia|]. cbn [Nat.eqb negb andb].
+        destruct (S L <=? S count) eqn:Eh.
+        -- apply Nat.leb_le in Eh. assert (L = count) by lia. subst.
+           assert (Hf : count + S (length (emits cs nd)) <? S count = false) by (apply Nat.ltb_ge; lia).
+           rewrite Hf. eexists. replace (S count - count) with 1 by lia. reflexivity.
+        -- apply Nat.leb_gt in Eh. specialize (IH (S count) ltac:(lia)).
+           replace (count + S (length (emits cs nd))) with (S count + length (emits cs nd)) by lia.
+           destruct (S count + length (emits cs nd) <? S L) eqn:Ef.
+           ++ rewrite IH. reflexivity.
+           ++ destruct IH as (pushed & IH). rewrite IH. eexists.
+              replace (S L - count) with (S (S L - S count)) by lia. reflexivity.
+      * specialize (IH count Hc). destruct (count + length (emits cs nd) <? L) eqn:Ef.
+        -- rewrite IH. reflexivity.
+        -- destruct IH as (pushed & IH). rewrite IH. eexists. reflexivity.
+Qed.
+
+Lemma bfs_unlimited_count f a q c c' : bfs f 0 a q c = bfs f 0 a q c'.
+Proof.
+  revert q c c'. induction f as [|f IH]; intros q c c'; cbn [bfs]; auto.
+  destruct q as [|nd q]; auto. rewrite !scan_unlimited. cbn iota.
+  now rewrite (IH _ (c + length (emits a nd)) (c' + length (emits a nd))).
+Qed.
+
+Lemma bfs_unlimited_step f a nd q c :
+  bfs (S f) 0 a (nd :: q) c =
+  let (r, ok) := bfs f 0 a (q ++ children a nd) 0 in (emits a nd ++ r, ok).
+Proof.
+  cbn [bfs]. rewrite scan_unlimited. cbn iota.
+  now rewrite (bfs_unlimited_count f a _ (c + length (emits a nd)) 0).
+Qed.
+
+(** the limit only cuts the result: the limited loop returns the first [L - count]
+    matches of the unlimited one *)
+Lemma bfs_limited f a L q c r :
+  c < L -> bfs f 0 a q 0 = (r, true) -> bfs f L a q c = (firstn (L - c) r, true).
+Proof.
+  revert q c r. induction f as [|f IH]; intros q c r Hc; cbn [bfs].
+  - intros [= <- Hq]. rewrite Hq. now rewrite firstn_nil.
+  - destruct q as [|nd q].
+    + intros [= <-]. now rewrite firstn_nil.
+    + rewrite scan_unlimited. cbn iota.
+      rewrite (bfs_unlimited_count f a _ (0 + length (emits a nd)) 0).
+      destruct (bfs f 0 a (q ++ children a nd) 0) as [r' ok] eqn:Eb. intros [= <- ->].
+      pose proof (scan_limited L a nd c Hc) as Hs.
+      destruct (c + length (emits a nd) <? L) eqn:Ef.
+      * apply Nat.ltb_lt in Ef. rewrite Hs. cbn iota.
+        rewrite (IH _ (c + length (emits a nd)) r' Ef Eb).
+        rewrite firstn_app. rewrite (firstn_all2 (emits a nd)) by lia.
+        f_equal. f_equal. f_equal. lia.
+      * apply Nat.ltb_ge in Ef. destruct Hs as (pushed & Hs). rewrite Hs. cbn iota.
+        rewrite firstn_app. replace (L - c - length (emits a nd)) with 0 by lia.
+        now rewrite firstn_O, app_nil_r.
+Qed.
+
+(** * Expand search: queue = levels *)
+
+Definition emitsQ (a : list byte) (q : list qnode) := flat_map (emits a) q.
+Definition childrenQ (a : list byte) (q : list qnode) := flat_map (children a) q.
+
+Lemma bfs_queue a q : forall r f,
+  length q <= f ->
+  bfs f 0 a (q ++ r) 0 =
+  let (res, ok) := bfs (f - length q) 0 a (r ++ childrenQ a q) 0 in (emitsQ a q ++ res, ok).
+Proof.
+  induction q as [|nd q IH]; intros r f Hf.
+  - cbn [app length childrenQ emitsQ flat_map]. rewrite Nat.sub_0_r, app_nil_r.
+    destruct (bfs f 0 a r 0); reflexivity.
+  - destruct f as [|f]; [cbn in Hf; lia|]. cbn [app length] in *.
+    rewrite bfs_unlimited_step. rewrite <- app_assoc.
+    rewrite (IH (r ++ children a nd) f ltac:(lia)).
+    cbn [Nat.sub childrenQ emitsQ flat_map]. rewrite <- app_assoc.
+    fold (childrenQ a q). fold (emitsQ a q).
+    destruct (bfs (f - length q) 0 a (r ++ children a nd ++ childrenQ a q) 0) as [res ok].
+    now rewrite app_assoc.
+Qed.
+
+Lemma bfs_ok_fuel a f : forall q, snd (bfs f 0 a q 0) = true -> length q <= f.
+Proof.
+  induction f as [|f IH]; intros q; cbn [bfs].
+  - destruct q; cbn; [lia|discriminate].
+  - destruct q as [|nd q]; cbn [length]; [lia|].
+    rewrite scan_unlimited. cbn iota.
+    rewrite (bfs_unlimited_count f a _ (0 + length (emits a nd)) 0).
+    destruct (bfs f 0 a (q ++ children a nd) 0) as [r ok] eqn:E. cbn [snd]. intros ->.
+    specialize (IH (q ++ children a nd)). rewrite E in IH. specialize (IH eq_refl).
+    rewrite app_length in IH. lia.
+Qed.
+
+Fixpoint levels (a : list byte) (D : nat) (q : list qnode) : list (nat * nat) :=
+  match D with
+  | 0 => []
+  | S D' => emitsQ a q ++ levels a D' (childrenQ a q)
+  end.
+
+Lemma levels_nil a D : levels a D [] = [].
+Proof. induction D as [|D IH]; cbn; auto. Qed.
+
+Lemma bfs_nil f a : bfs f 0 a [] 0 = ([], true).
+Proof. destruct f; reflexivity. Qed.
+
+Lemma bfs_levels a f : forall q r,
+  bfs f 0 a q 0 = (r, true) -> forall D, f <= D -> r = levels a D q.
+Proof.
+  induction f as [f IH] using lt_wf_ind. intros q r Hb D HD.
+  destruct q as [|nd q].
+  - rewrite bfs_nil in Hb. inversion Hb. now rewrite levels_nil.
+  - assert (Hlen : length (nd :: q) <= f).
+    { apply (bfs_ok_fuel a). now rewrite Hb. }
+    pose proof (bfs_queue a (nd :: q) [] f Hlen) as Hq. rewrite app_nil_r in Hq.
+    rewrite Hb in Hq. cbn [app] in Hq.
+    destruct (bfs (f - length (nd :: q)) 0 a (childrenQ a (nd :: q)) 0) as [res ok] eqn:E.
+    inversion Hq; subst.
+    destruct D as [|D]; [cbn in Hlen; lia|]. cbn [levels]. f_equal.
+    apply (IH (f - length (nd :: q))); [cbn [length] in *; lia|exact E|cbn [length] in *; lia].
+Qed.
+
+(** * Expand search: levels = words over the alphabet *)
+
+(** all words of length [d] over the alphabet, in lexicographic (alphabet) order *)
+Fixpoint words (a : list byte) (d : nat) : list bytes :=
+  match d with
+  | 0 => [[]]
+  | S d' => flat_map (fun w => map (fun c => w ++ [c]) a) (words a d')
+  end.
+
+Definition frontier (a : list byte) (q0 : bytes) (n0 : node) (d : nat) : list qnode :=
+  flat_map (fun w => let n := walk w n0 in if is_nil n then [] else [mkQ (q0 ++ w) n]) (words a d).
+
+Definition level (a : list byte) (q0 : bytes) (n0 : node) (d : nat) : list (nat * nat) :=
+  flat_map (fun w => match leaf (walk w n0) with Some v => [(v, length (q0 ++ w))] | None => [] end)
+           (words a d).
+
+Lemma walk_snoc w c nd : walk (w ++ [c]) nd = step c (walk w nd).
+Proof. now rewrite walk_walk. Qed.
+
+Lemma frontier_succ a q0 n0 d : childrenQ a (frontier a q0 n0 d) = frontier a q0 n0 (S d).
+Proof.
+  unfold childrenQ, frontier. cbn [words]. rewrite !flat_map_flat_map.
+  apply flat_map_ext_in. intros w _. rewrite flat_map_map. cbn zeta.
+  destruct (walk w n0) as [|e n] eqn:E; cbn [is_nil flat_map].
+  - symmetry. apply flat_map_nil_all. intros c _. rewrite walk_snoc, E. reflexivity.
+  - rewrite app_nil_r. unfold children. cbn [q_pos q_key]. apply flat_map_ext_in. intros c _.
+    rewrite walk_snoc, E, app_assoc. reflexivity.
+Qed.
+
+Lemma frontier_emits a q0 n0 d : emitsQ a (frontier a q0 n0 d) = level a q0 n0 (S d).
+Proof.
+  unfold emitsQ, frontier, level. cbn [words]. rewrite !flat_map_flat_map.
+  apply flat_map_ext_in. intros w _. rewrite flat_map_map. cbn zeta.
+  destruct (walk w n0) as [|e n] eqn:E; cbn [is_nil flat_map].
+  - symmetry. apply flat_map_nil_all. intros c _. rewrite walk_snoc, E. reflexivity.
+  - rewrite app_nil_r. unfold emits. cbn [q_pos q_key]. apply flat_map_ext_in. intros c _.
+    rewrite walk_snoc, E, app_assoc. reflexivity.
+Qed.
+
+Lemma levels_frontier a q0 n0 D : forall d,
+  levels a D (frontier a q0 n0 d) = flat_map (level a q0 n0) (seq (S d) D).
+Proof.
+  induction D as [|D IH]; intros d; cbn [levels seq flat_map]; auto.
+  now rewrite frontier_emits, frontier_succ, IH.
+Qed.
+
+Lemma frontier_0 a q0 n0 : n0 <> [] -> frontier a q0 n0 0 = [mkQ q0 n0].
+Proof.
+  intro H. unfold frontier. cbn. destruct n0; [congruence|]. cbn. now rewrite app_nil_r.
+Qed.
+
+(** * Expand search: the fuel suffices *)
+
+Definition tot (nd : node) : nat := fold_right (fun e a => length (fst e) + a) 0 nd.
+Definition wt (nd : node) : nat := if is_nil nd then 0 else S (tot nd).
+Definition potential (q : list qnode) : nat := fold_right (fun nd a => node_weight (q_pos nd) + a) 0 q.
+Fixpoint sumf (f : byte -> nat) (a : list byte) : nat :=
+  match a with [] => 0 | c :: a' => f c + sumf f a' end.
+
+Lemma node_weight_tot nd : node_weight nd = S (tot nd).
+Proof. reflexivity. Qed.
+
+Lemma tot_app a b : tot (a ++ b) = tot a + tot b.
+Proof. unfold tot. induction a as [|e a IH]; cbn; auto. rewrite IH. lia. Qed.
+
+Lemma tot_le_wt nd : tot nd <= wt nd.
+Proof. unfold wt. destruct nd; cbn; lia. Qed.
+
+Lemma potential_app a b : potential (a ++ b) = potential a + potential b.
+Proof. unfold potential. induction a as [|e a IH]; cbn [app fold_right]; auto. rewrite IH. lia. Qed.
+
+Lemma sumf_le f g a : (forall c, f c <= g c) -> sumf f a <= sumf g a.
+Proof. intro H. induction a as [|c a IH]; cbn; auto. specialize (H c). lia. Qed.
+
+Lemma sumf_add f g a : sumf (fun c => f c + g c) a = sumf f a + sumf g a.
+Proof. induction a as [|c a IH]; cbn; auto. rewrite IH. lia. Qed.
+
+Lemma sumf_indicator c0 k a :
+  NoDup a -> sumf (fun c => if byte_eqb c c0 then k else 0) a <= k.
+Proof.
+  induction 1 as [|c a Hn Hnd IH]; cbn; [lia|].
+  destruct (byte_eqb c c0) eqn:E; [|lia].
+  apply byte_eqb_eq in E. subst.
+  assert (Hz : sumf (fun c => if byte_eqb c c0 then k else 0) a = 0).
+  { clear IH Hnd. induction a as [|x a IH]; cbn; auto.
+    destruct (byte_eqb x c0) eqn:E.
+    - apply byte_eqb_eq in E. subst. exfalso. apply Hn. left. auto.
+    - rewrite IH; auto. intro. apply Hn. right. auto. }
+  rewrite Hz. lia.
+Qed.
+
+Lemma step_cons c e nd : step c (e :: nd) = step c [e] ++ step c nd.
+Proof. change (e :: nd) with ([e] ++ nd). apply step_app. Qed.
+
+Lemma children_sum a : NoDup a -> forall pos, sumf (fun c => wt (step c pos)) a <= tot pos.
+Proof.
+  intros Hnd pos. induction pos as [|[s v] pos IH].
+  - clear Hnd. induction a as [|c a IHa]; cbn; auto.
+  - destruct s as [|c0 s].
+    + erewrite (sumf_le _ (fun c => wt (step c pos))); [cbn; exact IH|].
+      intro c. rewrite step_cons. cbn. lia.
+    + transitivity (sumf (fun c => (if byte_eqb c c0 then S (length s) else 0) + wt (step c pos)) a).
+      * apply sumf_le. intro c. rewrite step_cons. cbn [step flat_map fst snd].
+        destruct (byte_eqb c c0); cbn [app].
+        -- unfold wt at 1. cbn [is_nil]. change (tot ((s, v) :: step c pos)) with (length s + tot (step c pos)).
+           pose proof (tot_le_wt (step c pos)). lia.
+        -- lia.
+      * rewrite sumf_add. pose proof (sumf_indicator c0 (S (length s)) a Hnd).
+        change (tot ((c0 :: s, v) :: pos)) with (S (length s) + tot pos). lia.
+Qed.
+
+Lemma children_potential a nd :
+  potential (children a nd) = sumf (fun c => wt (step c (q_pos nd))) a.
+Proof.
+  unfold children. induction a as [|c a IH]; cbn [flat_map sumf]; auto.
+  rewrite potential_app. rewrite IH. f_equal.
+  cbn zeta. unfold wt. destruct (step c (q_pos nd)); cbn; auto.
+Qed.
+
+Lemma bfs_fuel_sufficient a : NoDup a -> forall f q, potential q <= f -> snd (bfs f 0 a q 0) = true.
+Proof.
+  intros Hnd. induction f as [|f IH]; intros q Hq.
+  - destruct q as [|nd q]; cbn; auto. cbn in Hq. lia.
+  - destruct q as [|nd q]; [reflexivity|].
+    rewrite bfs_unlimited_step.
+    destruct (bfs f 0 a (q ++ children a nd) 0) as [r ok] eqn:E. cbn [snd].
+    specialize (IH (q ++ children a nd)). rewrite E in IH. apply IH.
+    rewrite potential_app, children_potential. pose proof (children_sum a Hnd (q_pos nd)).
+    cbn [potential fold_right] in Hq. fold (potential q) in Hq. rewrite node_weight_tot in Hq. lia.
+Qed.
+
+Lemma tot_In nd s v : In (s, v) nd -> length s <= tot nd.
+Proof.
+  unfold tot. induction nd as [|e nd IH]; cbn [In fold_right]; [tauto|].
+  intros [->|H]; cbn [fst]; [lia|]. specialize (IH H). lia.
+Qed.
+
+(** * The alphabet *)
+
+Lemma N_of_byte_bound b : (N_of_byte b <= 255)%N.
+Proof. unfold N_of_byte. apply Byte.to_N_bounded. Qed.
+
+Lemma schar_inj a b : schar a = schar b -> a = b.
+Proof.
+  unfold schar. intro H. apply N_of_byte_inj.
+  pose proof (N_of_byte_bound a). pose proof (N_of_byte_bound b).
+  destruct (Z.of_N (N_of_byte a) <? 128)%Z eqn:Ea; destruct (Z.of_N (N_of_byte b) <? 128)%Z eqn:Eb;
+    try apply Z.ltb_lt in Ea; try apply Z.ltb_ge in Ea; try apply Z.ltb_lt in Eb; try apply Z.ltb_ge in Eb; lia.
+Qed.
+
+Definition asorted (a : list byte) : Prop := StronglySorted Z.lt (map schar a).
+
+Lemma alpha_insert_In c a x : In x (alpha_insert c a) <-> x = c \/ In x a.
+Proof.
+  induction a as [|c' a IH]; cbn.
+  - split; [intros [<-|[]]; auto|intros [->|[]]; auto].
+  - destruct (schar c <? schar c')%Z; cbn; [split; intros [H|H]; auto|].
+    destruct (schar c =? schar c')%Z eqn:E; cbn.
+    + apply Z.eqb_eq, schar_inj in E. subst. split; [auto|intros [->|H]; auto].
+    + rewrite IH. split; [intros [H|[H|H]]; auto|intros [H|[H|H]]; auto].
+Qed.
+
+Lemma alpha_insert_sorted c a : asorted a -> asorted (alpha_insert c a).
+Proof.
+  unfold asorted. induction a as [|c' a IH]; cbn; intro H.
+  - repeat constructor.
+  - inversion H as [|x l Hs Hf]; subst.
+    destruct (schar c <? schar c')%Z eqn:E1; cbn.
+    + apply Z.ltb_lt in E1. constructor; auto. constructor; auto.
+      rewrite Forall_forall in *. intros y Hy. specialize (Hf y Hy). lia.
+    + destruct (schar c =? schar c')%Z eqn:E2; cbn; auto.
+      apply Z.ltb_ge in E1. apply Z.eqb_neq in E2. constructor; auto.
+      rewrite Forall_forall in *. intros y Hy. apply in_map_iff in Hy. destruct Hy as (z & <- & Hz).
+      apply alpha_insert_In in Hz. destruct Hz as [->|Hz]; [lia|].
+      apply Hf. now apply in_map.
+Qed.
+
+Lemma asorted_NoDup a : asorted a -> NoDup a.
+Proof.
+  unfold asorted. intro H. apply (NoDup_map_inv schar).
+  induction H as [|x l Hs IH Hf]; constructor; auto.
+  intro Hin. rewrite Forall_forall in Hf. specialize (Hf x Hin). lia.
+Qed.
+
+Lemma alphabet_of_spec keys :
+  asorted (alphabet_of keys) /\
+  forall c, In c (alphabet_of keys) <-> exists k, In k keys /\ In c k.
+Proof.
+  unfold alphabet_of.
+  assert (G1 : forall k a, asorted a -> asorted (fold_left (fun a c => alpha_insert c a) k a) /\
+            forall c, In c (fold_left (fun a c => alpha_insert c a) k a) <-> In c k \/ In c a).
+  { induction k as [|x k IH]; cbn; intros a Ha; [split; auto; intro; tauto|].
+    destruct (IH (alpha_insert x a) (alpha_insert_sorted x a Ha)) as [I1 I2]. split; auto.
+    intro c. rewrite I2, alpha_insert_In. split; [intros [H|[H|H]]; auto|intros [[H|H]|H]; auto]. }
+  assert (G2 : forall l a, asorted a ->
+            asorted (fold_left (fun a k => fold_left (fun a c => alpha_insert c a) k a) l a) /\
+            forall c, In c (fold_left (fun a k => fold_left (fun a c => alpha_insert c a) k a) l a) <->
+                      (exists k, In k l /\ In c k) \/ In c a).
+  { induction l as [|k l IH]; cbn; intros a Ha.
+    - split; auto. intro c. split; auto. intros [(k & [] & _)|H]; auto.
+    - destruct (G1 k a Ha) as [K1 K2]. destruct (IH _ K1) as [I1 I2]. split; auto.
+      intro c. rewrite I2, K2. split.
+      + intros [(k' & H1 & H2)|[H|H]]; eauto.
+      + intros [(k' & [<-|H1] & H2)|H]; eauto. }
+  destruct (G2 keys [] ltac:(constructor)) as [H1 H2]. split; auto.
+  intro c. rewrite H2. split; [intros [H|[]]; auto|auto].
+Qed.
+
+(** * words *)
+
+Lemma words_length a d w : In w (words a d) -> length w = d.
+Proof.
+  revert w. induction d as [|d IH]; cbn; intros w H.
+  - destruct H as [<-|[]]. reflexivity.
+  - apply in_flat_map in H. destruct H as (w' & H1 & H2). apply in_map_iff in H2.
+    destruct H2 as (c & <- & _). rewrite app_length, (IH _ H1). cbn. lia.
+Qed.
+
+Lemma words_complete a w : (forall c, In c w -> In c a) -> In w (words a (length w)).
+Proof.
+  induction w as [|c w IH] using rev_ind; intro H.
+  - cbn. auto.
+  - rewrite app_length. cbn [length]. rewrite Nat.add_1_r. cbn [words].
+    apply in_flat_map. exists w. split.
+    + apply IH. intros x Hx. apply H. apply in_or_app. auto.
+    + apply (in_map (fun c => w ++ [c])). apply H. apply in_or_app. right. left. auto.
+Qed.
+
+(** * Expand search: the specification *)
+
+(** the (id, length) of the query itself if it is a key, then for d = 1, 2, ..., D and
+    for every word w of length d over the alphabet, in lexicographic order of the
+    alphabet as stored, the (id, length) of query ++ w if that is a key *)
+Definition expand_spec (keys : list bytes) (a : list byte) (q : bytes) (D : nat) : list (nat * nat) :=
+  (match index_of q keys with Some v => [(v, length q)] | None => [] end) ++
+  flat_map (fun d => flat_map (fun w => match index_of (q ++ w) keys with
+                                        | Some v => [(v, length (q ++ w))]
+                                        | None => []
+                                        end) (words a d)) (seq 1 D).
+
+Lemma level_root keys a q d :
+  level a q (walk q (trie_root keys)) d =
+  flat_map (fun w => match index_of (q ++ w) keys with
+                     | Some v => [(v, length (q ++ w))]
+                     | None => []
+                     end) (words a d).
+Proof.
+  unfold level. apply flat_map_ext_in. intros w _. now rewrite <- walk_walk, leaf_walk_root.
+Qed.
+
 Section Proofs.
 Variable fcred : Type.
 Variable fcast : Z -> fcred.
@@ -336,4 +750,167 @@ Proof.
     rewrite (index_of_NoDup _ _ _ Hnd Hn). left. auto.
 Qed.
 
+(** * Expand search *)
+
+Notation expand_search_fuel := (expand_search_fuel fcred).
+
+(** (e) without a limit, expand search returns exactly [expand_spec] *)
+Lemma expand_unlimited_spec (p : prism) q r :
+  expand_search_fuel p q 0 = (r, true) ->
+  forall D, node_weight (walk q (trie_root (p_keys _ p))) <= D ->
+  r = expand_spec (p_keys _ p) (p_alphabet _ p) q D.
+Proof.
+  unfold PrismModel.expand_search_fuel, traverse, expand_spec.
+  rewrite <- (leaf_walk_root q (p_keys _ p)).
+  remember (walk q (trie_root (p_keys _ p))) as n0 eqn:En0.
+  intros H D HD.
+  assert (Hlv : forall d, flat_map (fun w => match index_of (q ++ w) (p_keys _ p) with
+                            | Some v => [(v, length (q ++ w))] | None => [] end) (words (p_alphabet _ p) d)
+                          = level (p_alphabet _ p) q n0 d).
+  { intro d. subst n0. symmetry. apply level_root. }
+  rewrite (flat_map_ext_in _ (level (p_alphabet _ p) q n0) (seq 1 D)) by (intros d _; apply Hlv).
+  destruct n0 as [|e n1] eqn:E0; cbn [is_nil] in H.
+  - inversion H; subst. cbn [leaf app]. symmetry. apply flat_map_nil_all. intros d _.
+    unfold level. apply flat_map_nil_all. intros w _. now rewrite walk_nil.
+  - rewrite <- E0 in *. assert (Hne : n0 <> []) by (rewrite E0; discriminate).
+    rewrite <- (levels_frontier _ q n0 D 0), (frontier_0 _ q n0 Hne).
+    destruct (leaf n0) as [v|] eqn:El.
+    + rewrite limit_hit_0 in H.
+      rewrite (bfs_unlimited_count _ _ _ 1 0) in H.
+      destruct (bfs (node_weight n0) 0 (p_alphabet _ p) [mkQ q n0] 0) as [r' ok] eqn:Eb.
+      inversion H; subst. cbn [app]. f_equal.
+      eapply bfs_levels; eauto.
+    + cbn [app]. eapply bfs_levels; eauto.
+Qed.
+
+(** the fuel handed to the loop always suffices when the alphabet has no duplicates *)
+Lemma expand_unlimited_terminates (p : prism) q :
+  NoDup (p_alphabet _ p) -> snd (expand_search_fuel p q 0) = true.
+Proof.
+  intro Hnd. unfold PrismModel.expand_search_fuel, traverse.
+  destruct (walk q (trie_root (p_keys _ p))) as [|e n1] eqn:E0; cbn [is_nil]; [reflexivity|].
+  rewrite <- E0. set (n0 := walk q (trie_root (p_keys _ p))).
+  assert (Hf : snd (bfs (node_weight n0) 0 (p_alphabet _ p) [mkQ q n0] 0) = true).
+  { apply bfs_fuel_sufficient; auto. unfold potential. cbn [fold_right q_pos]. lia. }
+  destruct (leaf n0) as [v|].
+  - rewrite limit_hit_0, (bfs_unlimited_count _ _ _ 1 0).
+    destruct (bfs (node_weight n0) 0 (p_alphabet _ p) [mkQ q n0] 0) as [r' ok]. exact Hf.
+  - exact Hf.
+Qed.
+
+(** (e) with a limit L > 0, expand search returns the first L matches of the unlimited search *)
+Lemma expand_limited (p : prism) q L r :
+  0 < L -> expand_search_fuel p q 0 = (r, true) ->
+  expand_search_fuel p q L = (firstn L r, true).
+Proof.
+  intro HL. unfold PrismModel.expand_search_fuel, traverse.
+  destruct (walk q (trie_root (p_keys _ p))) as [|e n1] eqn:E0; cbn [is_nil].
+  - intros [= <-]. now rewrite firstn_nil.
+  - rewrite <- E0. set (n0 := walk q (trie_root (p_keys _ p))).
+    destruct (leaf n0) as [v|].
+    + rewrite limit_hit_0, (bfs_unlimited_count _ _ _ 1 0).
+      destruct (bfs (node_weight n0) 0 (p_alphabet _ p) [mkQ q n0] 0) as [r' ok] eqn:Eb.
+      intros [= <- ->]. unfold limit_hit. destruct L as [|L]; [lia|]. cbn [Nat.eqb negb andb].
+      destruct (S L <=? 1) eqn:E1.
+      * apply Nat.leb_le in E1. assert (L = 0) by lia. subst. reflexivity.
+      * apply Nat.leb_gt in E1.
+        rewrite (bfs_limited _ _ (S L) _ 1 r' ltac:(lia) Eb).
+        cbn [firstn]. replace (S L - 1) with L by lia. reflexivity.
+    + intro Hb. rewrite (bfs_limited _ _ L _ 0 r HL Hb). now rewrite Nat.sub_0_r.
+Qed.
+
+(** membership: with the alphabet of the built prism, the unlimited search finds exactly
+    the keys that extend the query, each once per position, with its id and length *)
+Lemma expand_spec_In keys q D v n :
+  NoDup keys -> node_weight (walk q (trie_root keys)) <= D ->
+  (In (v, n) (expand_spec keys (alphabet_of keys) q D) <->
+   exists w, nth_error keys v = Some (q ++ w) /\ n = length (q ++ w)).
+Proof.
+  intros Hnd HD. unfold expand_spec. rewrite in_app_iff. split.
+  - intros [H|H].
+    + destruct (index_of q keys) as [v'|] eqn:E; [|destruct H]. destruct H as [H|[]].
+      inversion H; subst. exists []. rewrite app_nil_r. split; auto. now apply index_of_nth.
+    + apply in_flat_map in H. destruct H as (d & _ & H). apply in_flat_map in H.
+      destruct H as (w & _ & H). destruct (index_of (q ++ w) keys) as [v'|] eqn:E; [|destruct H].
+      destruct H as [H|[]]. inversion H; subst. exists w. split; auto. now apply index_of_nth.
+  - intros (w & Hn & ->). pose proof (index_of_NoDup _ _ _ Hnd Hn) as Hi.
+    destruct w as [|c w].
+    + left. rewrite app_nil_r in *. rewrite Hi. left. reflexivity.
+    + right. apply in_flat_map. exists (length (c :: w)). split.
+      * apply in_seq. assert (Hin : In (c :: w, v) (walk q (trie_root keys))).
+        { apply walk_In, In_trie_root. exact Hn. }
+        apply tot_In in Hin. rewrite node_weight_tot in HD. cbn [length] in *. lia.
+      * apply in_flat_map. exists (c :: w). split.
+        -- apply words_complete. intros x Hx. apply (proj2 (alphabet_of_spec keys)).
+           exists (q ++ c :: w). split; [eapply nth_error_In; eauto|]. apply in_or_app. auto.
+        -- rewrite Hi. left. reflexivity.
+Qed.
+
+(** * The prism as built *)
+
+Definition wf_prism (p : prism) : Prop := p_alphabet _ p = alphabet_of (p_keys _ p).
+
+Lemma build_wf syls sc : wf_prism (build syls sc).
+Proof. destruct sc; reflexivity. Qed.
+
+Lemma wf_alphabet_NoDup (p : prism) : wf_prism p -> NoDup (p_alphabet _ p).
+Proof. intros ->. apply asorted_NoDup, alphabet_of_spec. Qed.
+
+(** (e) expand search, any limit: the coded loop never runs out of fuel and returns the
+    specified list, cut at the limit (0 = no limit) *)
+Lemma expand_exact (p : prism) q L :
+  wf_prism p ->
+  expand_search_fuel p q L =
+  (let all := expand_spec (p_keys _ p) (p_alphabet _ p) q
+                          (node_weight (walk q (trie_root (p_keys _ p)))) in
+   if L =? 0 then all else firstn L all, true).
+Proof.
+  intro Hwf. pose proof (expand_unlimited_terminates p q (wf_alphabet_NoDup p Hwf)) as Ht.
+  destruct (expand_search_fuel p q 0) as [r ok] eqn:E0. cbn [snd] in Ht. subst ok.
+  pose proof (expand_unlimited_spec p q r E0 _ (le_n _)) as Hr. cbn zeta. rewrite <- Hr.
+  destruct L as [|L]; cbn [Nat.eqb]; [exact E0|].
+  apply expand_limited; [lia|exact E0].
+Qed.
+
+Lemma expand_members (p : prism) q v n :
+  wf_prism p -> NoDup (p_keys _ p) ->
+  (In (v, n) (expand_search p q 0) <->
+   exists w, nth_error (p_keys _ p) v = Some (q ++ w) /\ n = length (q ++ w)).
+Proof.
+  intros Hwf Hnd. unfold PrismModel.expand_search. rewrite (expand_exact p q 0 Hwf). cbn [fst Nat.eqb].
+  rewrite Hwf. apply expand_spec_In; auto.
+Qed.
+
 End Proofs.
+
+(** * Non-vacuity: the prism of the example table of Dict/AlgebraProofs.v *)
+
+Module PrismExample.
+  Import AlgebraProofs.Example.
+  Definition p := compile Z (fun c => c) syls rules.
+
+  Lemma keys_value : p_keys _ p = [[b_]; ba; [p_]; pa].
+  Proof. vm_compute. reflexivity. Qed.
+
+  Lemma get_ba : get_value _ p ba = Some 1.
+  Proof. vm_compute. reflexivity. Qed.
+
+  (** "ba" spells syllable 0 (ba) normally and syllable 2 (pa) fuzzily with one penalty *)
+  Lemma query_ba : query_spelling _ (fun c => c) p 1 = [mkDesc _ 0 0 0%Z []; mkDesc _ 2 1 (-1)%Z []].
+  Proof. vm_compute. reflexivity. Qed.
+
+  Lemma get_bo : get_value _ p bo = None.
+  Proof. vm_compute. reflexivity. Qed.
+
+  Lemma cps_pa : common_prefix_search _ p (pa ++ [o_]) = [(2, 1); (3, 2)].
+  Proof. vm_compute. reflexivity. Qed.
+
+  Lemma expand_empty : expand_search_fuel _ p [] 0 = ([(0, 1); (2, 1); (1, 2); (3, 2)], true).
+  Proof. vm_compute. reflexivity. Qed.
+
+  Lemma expand_empty_3 : expand_search_fuel _ p [] 3 = ([(0, 1); (2, 1); (1, 2)], true).
+  Proof. vm_compute. reflexivity. Qed.
+
+  Lemma expand_b : expand_search_fuel _ p [b_] 0 = ([(0, 1); (1, 2)], true).
+  Proof. vm_compute. reflexivity. Qed.
+End PrismExample.
